@@ -20,9 +20,26 @@ LEVEL = "exploration"
 
 OBJ_CLASSES = ["Cuboid", "Cylinder", "Sphere", "Tetrahedron", "TriangularMesh", "Triangle", "Circle", "Polyline",
                "Dipole", "Sensor", "Collection", "CustomSource", "CylinderSegment"]
-OBJ_NOTATIONS = ["magic_update", "nested_update", "attr", "assign_dict", "assign_magic_dict"]
+OBJ_NOTATIONS = ["magic_update", "nested_update", "attr", "assign_dict", "assign_magic_dict", "mixed_update",
+                 "magic_then_dict", "attr_dict"]
 CTOR_NOTATIONS = ["ctor_magic", "ctor_dict", "ctor_mixed"]
-DEF_NOTATIONS = ["fam_update", "style_update_nested", "style_update_magic", "attr", "display_update"]
+DEF_NOTATIONS = ["fam_update", "style_update_nested", "style_update_magic", "attr", "display_update",
+                 "fam_mixed_update", "fam_attr_dict", "fam_assign_dict"]
+
+
+def magic_then_dict_kwargs(items):
+    """keyword arguments in the order: first leaf as underscore keyword, then the remaining leaves as nested
+    dictionaries under their top-level keys (e.g. path_line_width=3, path={"line": {"color": "red"}})"""
+    kw = {items[0][0]: own(items[0][1], items[0][0])}
+    for top, val in nest_items(items[1:]).items():
+        kw[top] = val
+    return kw
+
+
+def assign_sub_dicts(target, items):
+    """attribute assignment of nested dictionaries one level below `target` (style.path = {...})"""
+    for top, val in nest_items(items).items():
+        setattr(target, top, val)
 SKIP_RESOLVE = ("model3d_", "label")
 TM_KW = {"vertices": [[0, 0, 0], [1, 0, 0], [0, 1, 0], [0, 0, 1]], "faces": [[0, 1, 2], [0, 1, 3], [0, 2, 3], [1, 2, 3]],
          "polarization": [0, 0, 1]}
@@ -31,9 +48,11 @@ TM_KW = {"vertices": [[0, 0, 0], [1, 0, 0], [0, 1, 0], [0, 0, 1]], "faces": [[0,
 _SCRIBBLE = []  # caller-owned mutable values handed to the library in the current call
 
 
-def own(v):
+def own(v, leaf=None):
     """a caller-owned copy of a value; lists are remembered and overwritten after the call"""
     v = copy.deepcopy(v)
+    if isinstance(v, list) and leaf is not None and sm.kind_of(leaf) == "color":
+        return tuple(v)  # rgb colours are given as tuples (the validator needs hashable input)
     if isinstance(v, list):
         _SCRIBBLE.append(v)
     return v
@@ -46,7 +65,7 @@ def nest_items(items):
         parts = leaf.split("_")
         for p in parts[:-1]:
             d = d.setdefault(p, {})
-        d[parts[-1]] = own(v)
+        d[parts[-1]] = own(v, leaf)
     return out
 
 
@@ -165,7 +184,7 @@ class C20Session(Session):
             for kw_items in ([], probe.get(i, [])):
                 if kw_items == [] and probe.get(i) and self.step % 2:
                     continue  # alternate to bound the cost
-                kw = {"style_" + leaf: copy.deepcopy(v) for leaf, v in kw_items}
+                kw = {"style_" + leaf: own(v, leaf) for leaf, v in kw_items}
                 show_kw = {leaf: v for leaf, v in kw_items}
                 with warnings.catch_warnings():
                     warnings.simplefilter("ignore")
@@ -194,7 +213,7 @@ class C20Session(Session):
         tops = [o for o in self.world.objs if o._parent is None]
         probe = dict((int(k), v) for k, v in (op.get("probe_kw") or {}).items())
         kw_items = next((v for v in probe.values() if v), [])
-        kw = {"style_" + leaf: copy.deepcopy(v) for leaf, v in kw_items}
+        kw = {"style_" + leaf: own(v, leaf) for leaf, v in kw_items}
         with warnings.catch_warnings():
             warnings.simplefilter("ignore")
             props = get_flatten_objects_properties_recursive(
@@ -219,7 +238,7 @@ class C20Session(Session):
     # ---------------------------------------------------------------- executing writes
     def _write_obj(self, o, items, notation):
         if notation == "magic_update":
-            o.style.update(**{leaf: own(v) for leaf, v in items})
+            o.style.update(**{leaf: own(v, leaf) for leaf, v in items})
         elif notation == "nested_update":
             d = nest_items(items)
             keep = copy.deepcopy(d)
@@ -235,7 +254,7 @@ class C20Session(Session):
                     tgt = getattr(tgt, p)
                 if not hasattr(type(tgt), parts[-1]) and not hasattr(tgt, parts[-1]):
                     raise AttributeError(parts[-1])
-                setattr(tgt, parts[-1], own(v))
+                setattr(tgt, parts[-1], own(v, leaf))
         elif notation == "assign_dict":
             d = nest_items(items)
             keep = copy.deepcopy(d)
@@ -244,22 +263,39 @@ class C20Session(Session):
                 raise Violation("caller_dict_mutated", "obj.style = dict changed the caller's dict", op="obj_set",
                                 notation=notation)
         elif notation == "assign_magic_dict":
-            o.style = {leaf: own(v) for leaf, v in items}
+            o.style = {leaf: own(v, leaf) for leaf, v in items}
+        elif notation == "mixed_update":
+            d = nest_items(items[:1])
+            keep = copy.deepcopy(d)
+            o.style.update(d, **{leaf: own(v, leaf) for leaf, v in items[1:]})
+            if d != keep:
+                raise Violation("caller_dict_mutated", "style.update(dict, **kwargs) changed the caller's dict",
+                                op="obj_set", notation=notation)
+        elif notation == "magic_then_dict":
+            o.style.update(**magic_then_dict_kwargs(items))
+        elif notation == "attr_dict":
+            assign_sub_dicts(o.style, items)
         else:
             raise HarnessError(notation)
 
     def _construct(self, cls, items, notation):
         kw = dict(TM_KW) if cls == "TriangularMesh" else {}
         if notation == "ctor_magic":
-            kw.update({"style_" + leaf: own(v) for leaf, v in items})
+            kw.update({"style_" + leaf: own(v, leaf) for leaf, v in items})
         elif notation == "ctor_dict":
             kw["style"] = nest_items(items)
         elif notation == "ctor_mixed":
             kw["style"] = nest_items(items[:1])
-            kw.update({"style_" + leaf: own(v) for leaf, v in items[1:]})
+            kw.update({"style_" + leaf: own(v, leaf) for leaf, v in items[1:]})
         else:
             raise HarnessError(notation)
+        keep = copy.deepcopy(kw.get("style"))
         o = cls_of(cls)(**kw)
+        if "style" in kw:
+            if kw["style"] != keep:
+                raise Violation("caller_dict_mutated", "the constructor changed the caller's style dict",
+                                op="new_obj", notation=notation)
+            kw["style"].clear()  # the caller re-uses its dict before the (lazily created) style is first used
         o.style  # noqa: B018  lazily created style: invalid input surfaces here at the latest
         return o
 
@@ -268,11 +304,11 @@ class C20Session(Session):
 
         style = self._settings().display.style
         if notation == "fam_update":
-            getattr(style, fam).update(**{leaf: own(v) for leaf, v in items})
+            getattr(style, fam).update(**{leaf: own(v, leaf) for leaf, v in items})
         elif notation == "style_update_nested":
             magpy.defaults.display.style.update({fam: nest_items(items)})
         elif notation == "style_update_magic":
-            magpy.defaults.display.style.update(**{f"{fam}_{leaf}": own(v) for leaf, v in items})
+            magpy.defaults.display.style.update(**{f"{fam}_{leaf}": own(v, leaf) for leaf, v in items})
         elif notation == "attr":
             for leaf, v in items:
                 tgt = getattr(style, fam)
@@ -281,9 +317,21 @@ class C20Session(Session):
                     tgt = getattr(tgt, p)
                 if not hasattr(type(tgt), parts[-1]):
                     raise AttributeError(parts[-1])
-                setattr(tgt, parts[-1], own(v))
+                setattr(tgt, parts[-1], own(v, leaf))
         elif notation == "display_update":
             magpy.defaults.display.update(style={fam: nest_items(items)})
+        elif notation == "fam_mixed_update":
+            d = nest_items(items[:1])
+            keep = copy.deepcopy(d)
+            getattr(style, fam).update(d, **{leaf: own(v, leaf) for leaf, v in items[1:]})
+            if d != keep:
+                raise Violation("caller_dict_mutated", "defaults update(dict, **kwargs) changed the caller's dict",
+                                op="def_set", notation=notation)
+        elif notation == "fam_attr_dict":
+            assign_sub_dicts(getattr(style, fam), items)
+        elif notation == "fam_assign_dict":
+            # the documented second way: magpy.defaults.display.style.magnet = {...}
+            setattr(magpy.defaults.display.style, fam, nest_items(items))
         else:
             raise HarnessError(notation)
 
@@ -291,14 +339,14 @@ class C20Session(Session):
         import magpylib as magpy
 
         if notation == "update":
-            magpy.defaults.display.update(**{leaf: own(v) for leaf, v in items})
+            magpy.defaults.display.update(**{leaf: own(v, leaf) for leaf, v in items})
         elif notation == "attr":
             for leaf, v in items:
                 tgt = magpy.defaults.display
                 parts = leaf.split("_")
                 for p in parts[:-1]:
                     tgt = getattr(tgt, p)
-                setattr(tgt, parts[-1], own(v))
+                setattr(tgt, parts[-1], own(v, leaf))
         else:
             raise HarnessError(notation)
 
@@ -367,14 +415,14 @@ class C20Session(Session):
                         raise Violation("rejected_update_changed_other_leaf", f"{k} changed by a rejected update",
                                         leaf=_sigleaf(k), **sig)
                 got = tgt_after.get(key_v)
-                if got not in (tgt_before.get(key_v), sm.norm(vval)):
+                if got not in (tgt_before.get(key_v), sm.stored(vleaf, vval)):
                     raise Violation("rejected_update_changed_other_leaf", f"{vleaf} = {got!r} after a rejected update",
                                     leaf=_sigleaf(vleaf), **sig)
                 if op["op"] == "obj_set":
                     M.set_obj(op["o"] % len(self.world.objs), vleaf, got)
                 elif op["op"] == "def_set":
                     M.set_default(op["fam"], vleaf, got)
-                self.probe("partial_update_applied" if got == sm.norm(vval) and got != tgt_before.get(key_v)
+                self.probe("partial_update_applied" if got == sm.stored(vleaf, vval) and got != tgt_before.get(key_v)
                            else "partial_update_not_applied")
             elif after != before:
                 path = _first_state_diff(before, after)
@@ -445,6 +493,11 @@ class C20Session(Session):
             M.reset_defaults()
             if dirty:
                 self.probe("reset_after_defaults_changed")
+        elif k == "style_reset":
+            import magpylib as magpy
+
+            out = self._guard(lambda: magpy.defaults.display.style.reset())
+            M.D = sm.load_frozen_defaults()
         elif k == "copy":
             i = op["o"] % len(w.objs)
             holder = {}
@@ -470,7 +523,18 @@ class C20Session(Session):
             i = op["o"] % len(w.objs)
             c = w.objs[i]
             if hasattr(c, "_children"):
-                out = self._guard(lambda: c.set_children_styles(**{leaf: copy.deepcopy(v) for leaf, v in op["items"]}))
+                def call():
+                    if op.get("notation") == "dict_and_kwargs":
+                        d = {leaf: own(v, leaf) for leaf, v in op["items"][:1]}
+                        keep = copy.deepcopy(d)
+                        c.set_children_styles(d, **{leaf: own(v, leaf) for leaf, v in op["items"][1:]})
+                        if d != keep:
+                            raise Violation("caller_dict_mutated", "set_children_styles(dict, **kwargs) changed the "
+                                            "caller's dict", op="children_styles", notation="dict_and_kwargs")
+                    else:
+                        c.set_children_styles(**{leaf: own(v, leaf) for leaf, v in op["items"]})
+
+                out = self._guard(call)
                 if out == "ok":
                     for d in _descendants(c):
                         j = w.index(d)
@@ -481,7 +545,7 @@ class C20Session(Session):
             import magpylib as magpy
 
             objs = [o for o in w.objs if o._parent is None][:3]
-            kw = {"style_" + leaf: copy.deepcopy(v) for leaf, v in op.get("items", [])}
+            kw = {"style_" + leaf: own(v, leaf) for leaf, v in op.get("items", [])}
             tr = None
             if op.get("boom"):
                 _BOOM["calls"] = 0
@@ -602,6 +666,7 @@ class Sim:
             "flatten_every": rng.choice([0, 2, 3]),
             "p_show": (0.05 if thorough else 0.02) if rng.random() < 0.7 else (0.15 if thorough else 0.06),
             "p_alias": rng.choice([0.0, 0.1, 0.3]),
+            "p_colorform": rng.choice([0.0, 0.3, 0.6]),
         }
 
     def new_world_spec(self, rng, cfg):
@@ -644,7 +709,10 @@ class Sim:
             if sm.is_alias(leaf) and rng.random() >= cfg["p_alias"]:
                 leaf = tgt
             used.add(tgt)
-            items.append([leaf, rng.choice(sm.VALID[sm.kind_of(leaf)])])
+            val = rng.choice(sm.VALID[sm.kind_of(leaf)])
+            if sm.kind_of(leaf) == "color" and rng.random() < cfg.get("p_colorform", 0.0):
+                val = rng.choice(sm.COLOR_FORMS)[0]  # int tuple, float tuple, short name, upper-case hex, rgb()
+            items.append([leaf, val])
         # the deprecated alias and its target, written in either order across steps
         al = [x for x in leaves if sm.is_alias(x)]
         if al and rng.random() < cfg["p_alias"]:
@@ -726,7 +794,7 @@ class Sim:
                 op["invalid"] = [{"kind": "bad_value", "items": [[leaf, rng.choice(sm.DISPLAY_INVALID[leaf])]],
                                   "leafkind": "display"}]
         elif kind == "reset":
-            op = {"op": "reset"}
+            op = {"op": "reset"} if rng.random() < 0.7 else {"op": "style_reset"}
         elif kind == "copy":
             op = {"op": "copy", "o": rng.randrange(n)}
         elif kind == "children_styles":
@@ -737,6 +805,10 @@ class Sim:
                                "magnetization_color_north", "size", "arrow_width", "path_marker_symbol"])
             op = {"op": "children_styles", "o": rng.choice(colls),
                   "items": [[leaf, rng.choice(sm.VALID[sm.kind_of(leaf)])]]}
+            if rng.random() < 0.4:
+                leaf2 = rng.choice([x for x in ["path_line_width", "opacity", "color", "path_marker_symbol"] if x != leaf])
+                op["items"].append([leaf2, rng.choice(sm.VALID[sm.kind_of(leaf2)])])
+                op["notation"] = "dict_and_kwargs"
         elif kind == "show":
             leaf = rng.choice(["opacity", "path_line_width", "color"])
             op = {"op": "show", "items": [[leaf, rng.choice(sm.VALID[sm.kind_of(leaf)])]] if rng.random() < 0.7 else [],
